@@ -526,11 +526,24 @@ mod for_trait_object {
 
     use super::*;
 
+    /// A request made through a claimed bump allocator is refused like one the base allocator
+    /// cannot satisfy, but it must be reported as "claimed" (an unwinding panic for the panicking
+    /// api) and not as an allocation failure (`handle_alloc_error` aborts).
+    #[cold]
+    #[inline(never)]
+    fn request_failed<E: ErrorBehavior>(bump: &impl BumpAllocatorCore, layout: Layout) -> E {
+        if bump.is_claimed() {
+            E::claimed()
+        } else {
+            E::allocation(layout)
+        }
+    }
+
     #[inline]
     pub(super) fn allocate_layout<E: ErrorBehavior>(bump: impl BumpAllocatorCore, layout: Layout) -> Result<NonNull<u8>, E> {
         match bump.allocate(layout) {
             Ok(ptr) => Ok(ptr.cast()),
-            Err(AllocError) => Err(E::allocation(layout)),
+            Err(AllocError) => Err(request_failed(&bump, layout)),
         }
     }
 
@@ -538,7 +551,7 @@ mod for_trait_object {
     pub(super) fn allocate_sized<E: ErrorBehavior, T>(bump: impl BumpAllocatorCore) -> Result<NonNull<T>, E> {
         match bump.allocate(Layout::new::<T>()) {
             Ok(ptr) => Ok(ptr.cast()),
-            Err(AllocError) => Err(E::allocation(Layout::new::<T>())),
+            Err(AllocError) => Err(request_failed(&bump, Layout::new::<T>())),
         }
     }
 
@@ -550,7 +563,7 @@ mod for_trait_object {
 
         match bump.allocate(layout) {
             Ok(ptr) => Ok(ptr.cast()),
-            Err(AllocError) => Err(E::allocation(layout)),
+            Err(AllocError) => Err(request_failed(&bump, layout)),
         }
     }
 
@@ -563,7 +576,7 @@ mod for_trait_object {
 
         match bump.allocate(layout) {
             Ok(ptr) => Ok(ptr.cast()),
-            Err(AllocError) => Err(E::allocation(layout)),
+            Err(AllocError) => Err(request_failed(&bump, layout)),
         }
     }
 
@@ -605,7 +618,7 @@ mod for_trait_object {
         };
 
         let Ok(range) = bump.prepare_allocation(layout) else {
-            return Err(E::allocation(layout));
+            return Err(request_failed(&bump, layout));
         };
 
         // NB: We can't use `offset_from_unsigned`, because the size is not a multiple of `T`'s.
@@ -648,7 +661,7 @@ mod for_trait_object {
         };
 
         let Ok(range) = bump.prepare_allocation_rev(layout) else {
-            return Err(E::allocation(layout));
+            return Err(request_failed(&bump, layout));
         };
 
         // NB: We can't use `offset_from_unsigned`, because the size is not a multiple of `T`'s.
@@ -686,7 +699,7 @@ mod for_trait_object {
 
         match bump.prepare_allocation(layout) {
             Ok(_) => Ok(()),
-            Err(AllocError) => Err(E::allocation(layout)),
+            Err(AllocError) => Err(request_failed(&bump, layout)),
         }
     }
 }
